@@ -8,7 +8,7 @@ fields = [
  ("local_max","Z"),("rwin","Z"),("sent_max_data","Z"),("data_recvd","Z"),("swin","Z"),("debt","Z"),
  ("p_max_data","bool"),("p_msid","bool * bool"),("p_msd","list Z"),("p_stop","list (Z * Z)"),
  ("p_reset","list (Z * Z)"),("seen","list Z"),("slog","list ((Z * Z * Z * Z) * Z)"),("panic","bool"),
- ("g_closed","Z"),("g_credits","Z"),("g_expand","Z"),
+ ("g_closed","Z"),("g_credits","Z"),("g_expand","Z"),("g_fin","list Z"),("g_reset","list Z"),
 ]
 print("Record st := mkSt {")
 print(";\n".join(f"  {n} : {t}" for n,t in fields))
